@@ -95,7 +95,8 @@ inductive Out (α : Type) where
   | resetOk
   /-- RuntimeError "Tried to reset an environment before done" — nothing changed, env not called -/
   | errEarlyReset
-  /-- ValueError "Expected you to pass keyword argument" — env not called, *state already changed* -/
+  /-- ValueError "Expected you to pass keyword argument" — env not called; only `current_reset_info` may have
+  been updated for the keywords that precede the missing one -/
   | errMissingKw
   /-- RuntimeError "Tried to step environment that needs reset" — nothing changed, env not called -/
   | errNeedsReset
@@ -129,9 +130,11 @@ def Mon.step (cfg : MonCfg) (rnd : α → α) (m : Mon α) : Op α → Mon α ×
   | .reset kw =>
     if !cfg.allowEarly && !m.needsReset then (m, .errEarlyReset)
     else
+      -- the keyword loop runs first (it may update `current_reset_info` partially before it raises);
+      -- `rewards` / `needs_reset` are only touched once the reset is known to go through
       let (ri, ok) := bindResetKw cfg.resetKeys kw m.resetInfo
-      let m1 := { m with rewards := [], needsReset := false, resetInfo := ri }
-      (m1, if ok then .resetOk else .errMissingKw)
+      if ok then ({ m with rewards := [], needsReset := false, resetInfo := ri }, .resetOk)
+      else ({ m with resetInfo := ri }, .errMissingKw)
   | .step r te tr info =>
     if m.needsReset then (m, .errNeedsReset)
     else
